@@ -336,6 +336,7 @@ func c19Specs(quick bool) []*wSpec {
 			// more than 200 outputs on ONE keyset (three restore batches), restore, go on, restore again (probe)
 			{Prop: "C19", Name: "C19-three-batches-q", Cfg: two, Init: c19ThreeBatches(), Menu: func(*wworld.World) []string { return nil }, Probe: c19Probe(false), Depth: 0, NoInvariants: true},
 			{Prop: "C19", Name: "C19-crossmint-p2pk-q", Cfg: crossMintCfg, Init: []string{"mint|2|16", "mint|0|8"}, Menu: crossMintP2PKMenu, Probe: c19Probe(false), Depth: 3, NoInvariants: true},
+			{Prop: "C19", Name: "C19-over300-q", Cfg: two, Init: c19Over300(), Menu: func(*wworld.World) []string { return nil }, Probe: c19Probe(false), Depth: 0, NoInvariants: true},
 			{Prop: "C19", Name: "C19-long-q", Cfg: two, Init: c19LongN(11), Menu: func(*wworld.World) []string { return nil }, Probe: c19Probe(false), Depth: 0, NoInvariants: true},
 		}
 	}
@@ -358,8 +359,23 @@ func c19Specs(quick bool) []*wSpec {
 			return nil
 		}, Probe: c19Probe(false), Depth: 4, NoInvariants: true},
 		{Prop: "C19", Name: "C19-crossmint-p2pk", Cfg: crossMintCfg, Init: []string{"mint|2|16", "mint|0|8"}, Menu: crossMintP2PKMenu, Probe: c19Probe(true), Depth: 4, NoInvariants: true},
+		{Prop: "C19", Name: "C19-over300", Cfg: two, Init: c19Over300(), Menu: func(w *wworld.World) []string {
+			if w.Wallets[0].Gen < 4 {
+				return []string{"restore|0", "mint|0|7", "rotate|a|100"}
+			}
+			return nil
+		}, Probe: c19Probe(false), Depth: 3, NoInvariants: true},
 		{Prop: "C19", Name: "C19-long", Cfg: two, Init: c19Long(), Menu: func(*wworld.World) []string { return nil }, Probe: c19Probe(true), Depth: 0, NoInvariants: true},
 	}
+}
+
+// c19Over300: more than 300 outputs on ONE keyset, restore, go on, restore again, go on (the probe restores once more).
+func c19Over300() []string {
+	var ops []string
+	for i := 0; i < 21; i++ {
+		ops = append(ops, "mint|0|32767") // 315 outputs on one keyset
+	}
+	return append(ops, "restore|0", "mint|0|255", "send|0|100|1", "recv|1|0|0", "restore|0", "mint|0|7")
 }
 
 func c19ThreeBatches() []string {
